@@ -22,7 +22,7 @@ import time
 
 HERE = os.path.dirname(os.path.abspath(__file__))
 ROOT = os.path.dirname(HERE)
-SCR = "/tmp/mqv-mut"
+SCR = os.environ.get("MQV_SCRATCH", "/tmp/mqv-mut")
 SREPO = os.path.join(SCR, "repo")
 SVERIF = os.path.join(SCR, "verif")
 
